@@ -124,6 +124,8 @@ type vSink struct {
 	typ       string
 	rejected1 []string // ids of single-entity calls the sink rejected, in call order
 	failAll   bool     // every call fails, also one with an empty batch (a sink whose target is gone)
+	killAt    int      // after the killAt-th call (0-based, counted from 1: 0 = never) call kill
+	kill      func()
 }
 
 func (s *vSink) GetConfig() map[string]interface{} {
@@ -163,6 +165,9 @@ func (s *vSink) processEntities(runner *Runner, entities []*server.Entity) error
 	}
 	s.delivered = append(s.delivered, entities...)
 	s.batches = append(s.batches, entities)
+	if s.killAt > 0 && s.calls == s.killAt && s.kill != nil {
+		s.kill()
+	}
 	return nil
 }
 
